@@ -35,6 +35,6 @@ DELIVERABLES, all inside the worktree directory {wt}:
   1. {wt}/MUTANT.diff  - output of `git -C {wt} diff -- FlowCal` (the source change only).
   2. {wt}/demo.py      - a small standalone program (run as `PYTHONPATH={wt} MPLBACKEND=Agg /venv/bin/python {wt}/demo.py`) that exits 0 and prints PASS on the UNMODIFIED library, and exits 1 and prints FAIL (with a short explanation) on the MODIFIED library. It must only rely on the public behaviour described in the property, generate its own input data (e.g. write small FCS files itself to a temp dir; test data files exist under {wt}/test and {wt}/examples if useful), and be deterministic.
   3. {wt}/MUTANT.md    - a few lines: what you changed, why the tests miss it, and exactly what is needed for it to manifest.
-Verify (a)-(d) yourself: run demo.py with the change (must FAIL), `git stash` the source change and run demo.py (must PASS), `git stash pop`; run the full test suite with the change and confirm the same 20 failures and 400 passes. Leave the worktree WITH the change applied (uncommitted).
+Verify (a)-(d) yourself: run demo.py with the change (must FAIL); save the change with `git -C {wt} diff -- FlowCal > {wt}/MUTANT.diff`, undo it with `git -C {wt} apply -R {wt}/MUTANT.diff` and run demo.py (must PASS), then re-apply it with `git -C {wt} apply {wt}/MUTANT.diff` (do NOT use `git stash`: the stash is shared by all worktrees of the repository and other agents are working in sibling worktrees); run the full test suite with the change and confirm the same 20 failures and 400 passes. Leave the worktree WITH the change applied (uncommitted).
 
 In your final answer, report: the diff, the demo result before/after, and the test-suite pass/fail counts with the change.""")
